@@ -72,7 +72,7 @@ def check(rep, tier, seed):
                 ev, pf = disturb(rnd, ch, kind, True)
                 jobs.append({"scenario": {"calls": 1, "askers_check": True, "printf_at": pf}, "chunks": ev, "step_timeout": 3.0})
                 meta.append((si, "racing-" + kind))
-    res = P.run_many(jobs, workers=12)
+    res = P.run_many(jobs, workers=12, confirm_timing=False)
     base = {}
     bad = []
     known = {}
